@@ -182,6 +182,13 @@ def safe(fn):
     return {'!repr': repr(v)[:80]}
 
 
+def make_extra():
+    """ a search registered on ONE of the files only (recipe `register:
+    glob_extra`) """
+    from searchkit import SearchDef
+    return SearchDef(r'^(\d+) (\S+) ', tag='X')
+
+
 def canon(results, path):
     """ per path: list of [linenumber, tag, values read by iteration, values
     read with get(part index), values read with get(field name), section
@@ -239,6 +246,8 @@ def child_main(recipe_path, out_path):
                 s1 = FileSearcher(max_parallel_tasks=recipe['m'], **kw)
                 for sd in make_defs():
                     s1.add(sd, p)
+                if recipe.get('register') == 'glob_extra' and i == 0:
+                    s1.add(make_extra(), p)
                 r1 = s1.run()
                 seq.append((canon(r1, p), None))
             except Exception as exc:  # noqa
@@ -260,6 +269,14 @@ def child_main(recipe_path, out_path):
                 for sd in defs:
                     for p in paths[1:]:
                         s.add(sd, p)
+            elif recipe.get('register') == 'glob_extra':
+                # every definition is registered on all files by ONE add()
+                # of a glob; afterwards one more search is added to the
+                # first file only
+                for sd in defs:
+                    s.add(sd, os.path.join(d, 'f*.txt'))
+                s.add(make_extra(), paths[0])
+                out['registered_files'] = len(s.files)
             else:
                 for sd in defs:
                     for p in paths:
@@ -483,6 +500,15 @@ def recipes(chk):
                 rec['files'].append({'vol': rec['files'][t0]['vol'],
                                      'seed': 0, 'seq': False,
                                      'alias_of': t0})
+    # registration history (fixed, independent of the random stream): all
+    # definitions added to all files by one glob add(), then one search added
+    # to the first file only
+    out.append({'m': 3, 'register': 'glob_extra', 'files': [
+        {'vol': 9, 'seed': 101, 'seq': True},
+        {'vol': 10, 'seed': 102, 'seq': False},
+        {'vol': 11, 'seed': 103, 'seq': True},
+        {'vol': 'E', 'seed': 104, 'seq': False},
+        {'vol': 1000, 'seed': 105, 'seq': False}]})
     rng = rng0
     # strict decoding (the default) and a file with invalid UTF-8: the
     # multi-file run must fail like the search of that file alone does
@@ -524,9 +550,13 @@ def observable(chk):
         shape = (f"files={len(vols)} m={r['m']} "
                  f"max_vol={max([v for v in vols if v != 'E'] or [0])}"
                  + (f" decode={r['decode']}" if r.get('decode') else '')
-                 + (" history" if r.get('history') else ''))
+                 + (" history" if r.get('history') else '')
+                 + (f" register={r['register']}" if r.get('register')
+                    else ''))
         if r.get('history'):
             chk.dist('obs_runs_with_searcher_history')
+        if r.get('register'):
+            chk.dist('obs_runs_registered_by_glob_plus_extra_search')
         chk.coverage['evaluations'] += 1
         chk.coverage['traces_validated_against_impl'] += 1
         chk.dist(f"obs_m={r['m']}")
